@@ -65,8 +65,9 @@ def gen(seed, tier, which):
             out.append({'kind': 'srv_resp', 'class': 'srv_resp', 'method': 'POST', 'version': rnd.choice(['HTTP/1.1', 'HTTP/2.0']), 'ctype': rnd.choice(WEB),
                         'accept': accept, 'text': accept in TEXT, 'chunks_req': [], 'chunks_resp': cut(rnd, fb), 'trailers': rand_trailers(rnd, any_map=True),
                         'inner_status': 200, 'frames_bytes': list(fb)})
-        for _ in range(n):
-            payload = bytes(rnd.randrange(256) for _ in range(rnd.choice([0, 1, 2, 3, 4, 5, 17, 60, 200])))
+        for k in range(n):
+            # (every fortieth request carries a payload around / above the layer's 8 KiB buffer constant)
+            payload = bytes(rnd.randrange(256) for _ in range(rnd.choice([8185, 8186, 9000, 20000]) if k % 40 == 7 else rnd.choice([0, 1, 2, 3, 4, 5, 17, 60, 200])))
             text = rnd.random() < 0.6
             wire = base64.b64encode(payload) if text else payload
             well = True
@@ -74,8 +75,16 @@ def gen(seed, tier, which):
                 wire = wire[:-rnd.randint(1, 3)]
                 well = False
             out.append({'kind': 'srv_req', 'class': 'srv_req', 'method': 'POST', 'version': 'HTTP/1.1', 'ctype': rnd.choice(TEXT if text else WEB[:2]), 'accept': 'none', 'text': text,
-                        'chunks_req': cut(rnd, wire), 'chunks_resp': [], 'trailers': [{'n': 'grpc-status', 'nb': list(b'grpc-status'), 'v': [48]}], 'inner_status': 200,
+                        'chunks_req': cut(rnd, wire, 'one') if len(payload) > 8000 and len(out) % 2 == 0 else cut(rnd, wire), 'chunks_resp': [], 'trailers': [{'n': 'grpc-status', 'nb': list(b'grpc-status'), 'v': [48]}], 'inner_status': 200,
                         'payload': list(payload), 'wellformed': well})
+        # text requests whose base64 form exceeds the layer's 8 KiB buffer constant by a third and more, whole or in two chunks
+        for size in (8186, 8190, 9000, 20000):
+            payload = bytes(rnd.randrange(256) for _ in range(size))
+            wire = base64.b64encode(payload)
+            for chunks in ([list(wire)], [list(wire[:10923]), list(wire[10923:])], [list(wire[:12001]), list(wire[12001:])]):
+                out.append({'kind': 'srv_req', 'class': 'srv_req_large_text', 'method': 'POST', 'version': 'HTTP/1.1', 'ctype': TEXT[0], 'accept': 'none', 'text': True,
+                            'chunks_req': [c for c in chunks if c], 'chunks_resp': [], 'trailers': [{'n': 'grpc-status', 'nb': list(b'grpc-status'), 'v': [48]}], 'inner_status': 200,
+                            'payload': list(payload), 'wellformed': True})
         # base64 text made of several independently padded segments (one per flushed frame, as every grpc-web encoder
         # including tonic-web's own produces them), cut anywhere - also inside and right after the padding
         for _ in range(n // 2):
